@@ -453,6 +453,9 @@ func (t *Collection) VisitItemsRandom(
 	if err != nil {
 		return err
 	}
+	if numBlocks == 0 {
+		return nil // Empty collection.
+	}
 	if (lenBlock < 1) || (numBlocks < 1) {
 		return fmt.Errorf("impossible block sizes,%d,%d", lenBlock, numBlocks)
 	}
@@ -517,6 +520,9 @@ func (t *Collection) VisitItemsAscendBlockEx(
 	//log.Println("There are ", numBlocks, " of Length ", lenBlock)
 	if err != nil {
 		return err
+	}
+	if numBlocks == 0 {
+		return nil // Empty collection.
 	}
 	if (lenBlock < 1) || (numBlocks < 1) {
 		return fmt.Errorf("impossible block sizes,%d,%d", lenBlock, numBlocks)
@@ -603,7 +609,7 @@ func (t *Collection) Len() (l int64, err error) {
 		return true
 	}
 	si, err := t.MinItem(false)
-	if err != nil {
+	if err != nil || si == nil {
 		return
 	}
 	err = t.VisitItemsAscendEx(si.Key, false, visitor)
